@@ -233,6 +233,7 @@ package list
 //@   requires s != nil && s.store != nil && s.recordsColl != nil && s.headStorage != nil && s.arena != nil
 //@   requires !txOpened && !txCommitted && !txRolledBack && !txCommitCalled
 //@   ensures [ok_implies_committed]    err == nil && len(records) > 0 ==> txCommitted
+//@   ensures [ok_implies_heads_updated] err == nil && len(records) > 0 ==> txHeadUpdated
 //@   ensures [err_implies_not_committed] err != nil ==> !txCommitted
 //@   ensures [err_implies_rolled_back] err != nil && txOpened ==> txRolledBack || txCommitCalled
 //@   ensures [commit_xor_rollback]     !(txCommitCalled && txRolledBack)
